@@ -515,6 +515,10 @@ func c10RenderAlone(cs *c10ComposeScn, i int, xrC map[string]any, mons *[]Mon) *
 		if pn != "" {
 			ec = "panic"
 		}
+		if mons != nil && !reflect.DeepEqual(xrc.Object, xrC) {
+			*mons = append(*mons, Mon{Sig: "C10:source-modified", Why: fmt.Sprintf("template %d patch %d: the composite resource was modified by a patch that reads from it", i, j)})
+			xrc.Object = c10CopyMap(xrC)
+		}
 		_, missing := c10SourceState(p, xrC)
 		if c10PresentSourceSkipped(p, reached, p.out, ec, before, r.Object) {
 			out.skipped = true
@@ -566,7 +570,11 @@ func c10RenderAlone(cs *c10ComposeScn, i int, xrC map[string]any, mons *[]Mon) *
 // run against the stored resource and the rendered one; the operands are read before each
 // option, the verdict comes from crossplane-runtime's MergeValue on a scratch object, and the
 // rendered object is stepped forward with the real mergeReplace.
-func c10FillApplyOracles(t *c10Tpl, cur map[string]any, rendered *ucomposed.Unstructured) {
+//
+// The result is the object the apply options leave to be sent (false: an option failed) - built
+// from the real mergeReplace alone, it is the reference the monitor sent-differs-from-rendered
+// compares the body of the real Compose with.
+func c10FillApplyOracles(t *c10Tpl, cur map[string]any, rendered *ucomposed.Unstructured) (*ucomposed.Unstructured, bool) {
 	desired := &ucomposed.Unstructured{Unstructured: unstructured.Unstructured{Object: c10CopyMap(rendered.Object)}}
 	current := &ucomposed.Unstructured{Unstructured: unstructured.Unstructured{Object: c10CopyMap(cur)}}
 	for j := range t.Patches {
@@ -594,9 +602,10 @@ func c10FillApplyOracles(t *c10Tpl, cur map[string]any, rendered *ucomposed.Unst
 		}
 		var err error
 		if pn := Guard(func() { err = composite.VerifC10MergeReplace(p.To.Raw, current, desired, mo) }); pn != "" || err != nil {
-			return
+			return desired, false
 		}
 	}
+	return desired, true
 }
 
 func c10RunCompose(s *c10Scn) (any, []Mon, string) {
@@ -667,6 +676,9 @@ func c10RunCompose(s *c10Scn) (any, []Mon, string) {
 	}
 	if strings.HasPrefix(ec, "other:") {
 		mons = append(mons, Mon{Sig: "C10:unclassified-error", Why: ec})
+	}
+	if pn == "" && !reflect.DeepEqual(c10UserPart(xr.Object), c10UserPart(xrC)) {
+		mons = append(mons, Mon{Sig: "C10:source-modified", Why: "the spec or the metadata of the composite resource was modified by Compose"})
 	}
 	obs := map[string]any{"err": ec}
 	writes := []any{}
